@@ -232,6 +232,13 @@ def r3(run):
 ALLOWED_WRITERS = {C.NEW: "seed + reload", C.APPEND: "registration", C.REMOVE: "unregistration", C.INSERT_FRAME: "store path (import included)"}
 
 
+def allowed_writers(run):
+    d = dict(ALLOWED_WRITERS)
+    for r in C.removers(run.facts):
+        d.setdefault(r, "unregistration (shared removal function)")
+    return d
+
+
 def r4(run):
     n = 0
     for b in run.facts.all_bodies():
@@ -242,7 +249,8 @@ def r4(run):
             n += 1
             fn = run.facts.enclosing_fn(b)
             run.touch(b)
-            ok_fn = fn in ALLOWED_WRITERS and b.def_ == fn
+            AW = allowed_writers(run)
+            ok_fn = fn in AW and b.def_ == fn
             regs = topic_is_ctx_switches(b)
             t_edges = [e for (bb, t, f) in regs for e in t]
             guarded = (bool(t_edges) and q.dominated(b, c.bb, via_edges=t_edges)) or (len(c.args) > 1 and filtered_by_ctx_topic(run, c.arg(1)))
@@ -250,7 +258,7 @@ def r4(run):
             own = v is not None and q.last_field(v) == "id"
             run.ob("%s|registry-%s" % (fn, m), ok_fn and guarded and own and m in ("insert", "remove"), c.sp,
                    "Store.contexts.%s in %s (%s): guarded by topic==\"xs.context\": %s, value is that frame's id: %s" % (
-                       m, fn, ALLOWED_WRITERS.get(fn, "NOT an audited writer"), guarded, own), reason="unaudited-registry-write")
+                       m, fn, AW.get(fn, "NOT an audited writer"), guarded, own), reason="unaudited-registry-write")
     run.floor("writes to Store.contexts through the field", n, 4)
     # the field is private (other crates cannot reach it): type-level witness, see W2
     store = run.facts.adt(C.STORE)
